@@ -21,3 +21,9 @@ def bounded(ctx):
     c17.query_lists(ctx)
     c17.token_strings(ctx)
     c17.histories(ctx)
+
+
+# T1 (PyVC): deleteMedium and appendMedium on the ordered-set view of the list (any length, raising and logging mode): delete removes
+# exactly the first entry of the type or is rejected unchanged; append moves an existing type to the end, refuses to extend 'all',
+# turns the list into [all] for 'all', appends otherwise; every rejected call leaves the list unchanged.
+T1 = [('contracts.medialist', None)]
